@@ -669,6 +669,8 @@ def autofission_loop_carried_dependency(r):
             crossed += 1
             if crossed >= n_lifts:
                 break
+        if len(cur._path) <= 1:
+            break  # a top-level statement: its siblings are never split
         sibs2, k2 = _block_and_index(cur)
         pre = list(sibs2[:k2]) + pre
         post = post + list(sibs2[k2 + 1 :])
@@ -1027,3 +1029,14 @@ def c02_stage_mem_of_aliased_buffer(r):
         if isinstance(st, LoopIR.WindowStmt) and (str(st.rhs.name) == buf or st.rhs.name in aliases):
             aliases.add(st.name)
     return bool(aliases)
+
+
+def c06_block_after_cut_loop_rewrite(r):
+    """after cut_loop has duplicated a loop body, a rewrite that replaces statements in both copies (expand_dim,
+    extract_subproc) forwards a block cursor of one copy to a block that does not contain the forwarded statement"""
+    if r.get("property") != "C06" or r.get("op") not in ("expand_dim", "extract_subproc"):
+        return False
+    if not any(st.get("op") == "cut_loop" for st in (r.get("chain") or [])):
+        return False
+    pr = str((r.get("detail") or {}).get("problem"))
+    return pr.startswith("forwarded block does not contain")
